@@ -66,7 +66,7 @@ func init() {
 	if v == "" {
 		return
 	}
-	watchdog.Store(time.Now().Unix() + 300)
+	watchdog.Store(time.Now().Unix() + 900)
 	out := os.NewFile(3, "result")
 	dir := setupSentinel()
 	// never outlive the worker, never spin for ever
@@ -145,6 +145,7 @@ func serve(out *os.File, dir string) {
 	}
 	cleanSentinel(dir)
 	in := bufio.NewReaderSize(os.Stdin, 1<<16)
+	sinceCanary := 0
 	for {
 		line, err := in.ReadBytes('\n')
 		if len(line) == 0 || err != nil {
@@ -154,13 +155,20 @@ func serve(out *os.File, dir string) {
 		if json.Unmarshal(line, &req) != nil {
 			return
 		}
-		watchdog.Store(time.Now().Unix() + 300)
+		watchdog.Store(time.Now().Unix() + 900)
 		res := runRequest(req, dir)
 		cleanSentinel(dir)
-		for i, s := range Observers {
-			if now, _ := runSolo(observerActor(s), dir); now != pristine[i] {
-				res.Retire = true
-				break
+		// The canary: after a case that was not a clean pass, and after every
+		// fourth case.  (A late canary cannot cause a false report: failures
+		// are re-established in pristine processes.)
+		sinceCanary++
+		if sinceCanary >= 4 || res.Nondet != "" || len(res.Fail) > 0 {
+			sinceCanary = 0
+			for i, s := range Observers {
+				if now, _ := runSolo(observerActor(s), dir); now != pristine[i] {
+					res.Retire = true
+					break
+				}
 			}
 		}
 		cleanSentinel(dir)
@@ -370,8 +378,8 @@ func (c *child) await() (*childRes, *childErr) {
 		}
 		c.stderr.take()
 		return &res, nil
-	case <-time.After(150 * time.Second):
-		return nil, &childErr{kind: "hang", detail: "no result after 150 s\nstderr:\n" + c.stderr.take()}
+	case <-time.After(600 * time.Second):
+		return nil, &childErr{kind: "hang", detail: "no result after 600 s\nstderr:\n" + c.stderr.take()}
 	}
 }
 
